@@ -30,6 +30,7 @@ type fproc struct {
 	pauseMu  sync.Mutex
 	paused   bool
 	pauseCnd *sync.Cond
+	fillWG   sync.WaitGroup
 }
 
 type logBuf struct {
@@ -81,20 +82,25 @@ func (p *fproc) Kill() {
 }
 
 // BlockLog stops draining the child's log pipe and fills it: the child's next
-// log line blocks until ResumeLog.
+// log line blocks until ResumeLog. (The write end was handed to the child, which
+// puts it into blocking mode, so the filler simply writes from a goroutine until
+// it blocks; ResumeLog lets it finish.)
 func (p *fproc) BlockLog() {
 	p.pauseMu.Lock()
 	p.paused = true
 	p.pauseMu.Unlock()
-	time.Sleep(20 * time.Millisecond) // a read in flight returns
-	chunk := bytes.Repeat([]byte{'#'}, 1024)
-	for {
-		p.pw.SetWriteDeadline(time.Now().Add(150 * time.Millisecond))
-		if _, err := p.pw.Write(chunk); err != nil {
-			break
+	time.Sleep(30 * time.Millisecond) // a read in flight returns
+	p.fillWG.Add(1)
+	go func() {
+		defer p.fillWG.Done()
+		chunk := bytes.Repeat([]byte{'#'}, 4096)
+		for i := 0; i < 40; i++ { // 160 KiB, more than the pipe holds
+			if _, err := p.pw.Write(chunk); err != nil {
+				return
+			}
 		}
-	}
-	p.pw.SetWriteDeadline(time.Time{})
+	}()
+	time.Sleep(150 * time.Millisecond)
 }
 
 func (p *fproc) ResumeLog() {
@@ -102,6 +108,7 @@ func (p *fproc) ResumeLog() {
 	p.paused = false
 	p.pauseCnd.Broadcast()
 	p.pauseMu.Unlock()
+	p.fillWG.Wait()
 }
 
 // startProc launches the server binary on a free port and waits for its own
